@@ -535,13 +535,14 @@ impl Model {
             // a directory copied into itself: refusing is admitted; a faithful snapshot copy would be too
             return vec![same(Pat::AnyErr), unspec()];
         }
-        let (dir_mode, file_mode) = match o.mode {
+        let (dir_mode, file_mode) = match o.mode.effective() {
             CopyMode::None => (None, None),
             CopyMode::All(m) => (Some(m), Some(m)),
             CopyMode::Dirs(m) => (Some(m), None),
             CopyMode::Files(m) => (None, Some(m)),
+            CopyMode::Two(..) => unreachable!(),
         };
-        if matches!(o.mode, CopyMode::All(0) | CopyMode::Dirs(0) | CopyMode::Files(0)) {
+        if matches!(o.mode.effective(), CopyMode::All(0) | CopyMode::Dirs(0) | CopyMode::Files(0)) {
             return vec![unspec()];
         }
         let visits = match self.traverse(&s, false, usize::MAX) {
@@ -984,7 +985,7 @@ impl Model {
                 _ => vec![same(Pat::AnyErr)],
             },
             // handles that live across steps: when their bytes become visible is C07's subject
-            HOpen(..) | HWrite(..) | HFlush(..) | HDrop(..) => vec![unspec()],
+            HOpen(..) | HWrite(..) | HFlush(..) | HDrop(..) | Late(..) => vec![unspec()],
         }
     }
 
